@@ -15,5 +15,6 @@ for id in "$@"; do
   echo "== $id $tier exit=$code"
   echo "$out" | grep -E "VIOLATION|violation detail|level=|cannot|tool error" | cut -c1-${SEED_COLS:-260} | head -${SEED_LINES:-4}
 done
+git -C /repo apply -R "$D/patch.diff" 2>/dev/null
 git -C /repo checkout -- .
 git -C /repo status --short | grep -v data/data.bin
